@@ -957,7 +957,7 @@ def run(tier, seed, replay=None):
     # ---------------------------------------------------------------- compare
     fam_hist, fam_cmp = {}, {}
     global JOLT_ILLCOND
-    JOLT_ILLCOND = bool({"C18-JOLT-ILLCOND", "C18-ORIG-ILLCOND"} & c12.foreign_known("C18"))
+    JOLT_ILLCOND = "F-J2" in c12.foreign_known("C01")      # recorded finding of C01: d below |a-b| (C18-*-ILLCOND in the loop)
     known = {e["id"]: e for e in R.known}
     distinct = set()
     fails = []
